@@ -1010,6 +1010,11 @@ func (c *Client) MkdirAll(path string) error {
 // RemoveAll delete files recursively in the directory and Recursively delete subdirectories.
 // An error will be returned if no file or directory with the specified path exists
 func (c *Client) RemoveAll(path string) error {
+	// Simple case, as in os.RemoveAll: if Remove works, we are done.
+	// (An empty directory can be removed without permission to list it.)
+	if err := c.Remove(path); err == nil {
+		return nil
+	}
 
 	// Get the file/directory information.
 	// Lstat, not Stat: a symbolic link is removed itself, like os.RemoveAll does;
